@@ -1,4 +1,84 @@
+/-
+  C10 — perpendicular / parallel / projection / mirror constructions meet their definitions.
+  Mechanism: the construction of `LineTensor.mirror` through the circular points (six joins / meets = cross products,
+  over the Gaussian numbers); specification: Geo.Spec.Euclid.  The implementation is compared with the
+  specification on every run (tools/props/c10.py).
+-/
+import Geo.Gen.Operators
 import Geo.Spec.Euclid
+import Geo.Proofs.Lemmas
+import Geo.Props.C09
+import Mathlib.Tactic.FieldSimp
 namespace Geo
-theorem C10_placeholder : (1 : Nat) = 1 := rfl
+open Spec
+
+variable {F : Type} [Field F]
+
+/-- `LineTensor.mirror` in the plane: l1 = I∨p, l2 = J∨p, p1 = l∧l1, p2 = l∧l2, m1 = p1∨J, m2 = p2∨I, result = m1∧m2
+    (join and meet of the plane are cross products up to sign, C01's T01.1/T01.2) -/
+def mirror2 (l p : Nat → Gauss F) : Nat → Gauss F :=
+  let l1 := cross circI p
+  let l2 := cross circJ p
+  let p1 := cross l l1
+  let p2 := cross l l2
+  let m1 := cross p1 circJ
+  let m2 := cross p2 circI
+  cross m1 m2
+
+/-- **mirror** the construction returns `2i·z·(a²+b²)` times the classical mirror image
+    `(x,y) − 2(ax+by+cz)/(a²+b²)·(a,b)` (written without division): a real projective point, for every
+    representative of line and point -/
+theorem T10_mirror2 (a b c x y z : F) :
+    let r := mirror2 (cplx fun k => [a, b, c].getD k 0) (cplx fun k => [x, y, z].getD k 0)
+    let t := a * x + b * y + c * z
+    (r 0).re = 0 ∧ (r 1).re = 0 ∧ (r 2).re = 0 ∧
+    (r 0).im = 2 * z * ((a ^ 2 + b ^ 2) * x - 2 * t * a) ∧
+    (r 1).im = 2 * z * ((a ^ 2 + b ^ 2) * y - 2 * t * b) ∧
+    (r 2).im = 2 * z * ((a ^ 2 + b ^ 2) * z) := by
+  simp [mirror2, cross, cplx, circI, circJ]
+  refine ⟨?_, ?_, ?_, ?_, ?_, ?_⟩ <;> ring
+
+/-- the Cartesian mirror image of the specification is exactly that point (dehomogenised) -/
+theorem T10_mirror_spec (a b c x y : F) (hn : a ^ 2 + b ^ 2 ≠ 0) :
+    mirrorHyper [a, b, c] [x, y, 1] =
+      [((a ^ 2 + b ^ 2) * x - 2 * (a * x + b * y + c) * a) / (a ^ 2 + b ^ 2),
+       ((a ^ 2 + b ^ 2) * y - 2 * (a * x + b * y + c) * b) / (a ^ 2 + b ^ 2), 1] := by
+  simp [mirrorHyper, norm2, ldot, vsub, vscale, affine, normal, offset, homog]
+  constructor <;> field_simp <;> ring
+
+/-- mirror is an involution, the midpoint of p and its image is the foot, and p − foot is normal to the line -/
+theorem T10_mirror_involution_2d (a b c x y : F) (hn : a ^ 2 + b ^ 2 ≠ 0) :
+    mirrorHyper [a, b, c] (mirrorHyper [a, b, c] [x, y, 1]) = [x, y, 1] ∧
+    (∀ i, i < 2 → ((mirrorHyper [a, b, c] [x, y, 1]).getD i 0 + [x, y, 1].getD i 0) = 2 * (footHyper [a, b, c] [x, y, 1]).getD i 0) ∧
+    (x - (footHyper [a, b, c] [x, y, 1]).getD 0 0) * b - (y - (footHyper [a, b, c] [x, y, 1]).getD 1 0) * a = 0 := by
+  refine ⟨?_, ?_, ?_⟩
+  · simp [mirrorHyper, norm2, ldot, vsub, vscale, affine, normal, offset, homog]
+    constructor <;> field_simp <;> ring
+  · intro i hi
+    interval_cases i <;> simp [mirrorHyper, footHyper, norm2, ldot, vsub, vscale, affine, normal, offset, homog] <;> field_simp <;> ring
+  · simp [footHyper, norm2, ldot, vsub, vscale, affine, normal, offset, homog]
+    field_simp; ring
+
+theorem T10_mirror_involution_3d (a b c d x y z : F) (hn : a ^ 2 + b ^ 2 + c ^ 2 ≠ 0) :
+    mirrorHyper [a, b, c, d] (mirrorHyper [a, b, c, d] [x, y, z, 1]) = [x, y, z, 1] ∧
+    ldot [a, b, c, d] (footHyper [a, b, c, d] [x, y, z, 1]) = 0 := by
+  constructor
+  · simp [mirrorHyper, norm2, ldot, vsub, vscale, affine, normal, offset, homog]
+    refine ⟨?_, ?_, ?_⟩ <;> field_simp <;> ring
+  · simp [footHyper, norm2, ldot, vsub, vscale, affine, normal, offset, homog]
+    field_simp; ring
+
+/-- `is_perpendicular`: the cross ratio `cr(L, M, I, J)` of the points at infinity `L = (u,0)`, `M = (v,0)` seen from a
+    finite point is `−1` exactly when `u·v = 0`: numerator + denominator `= 2 (u·v)·(…)`; here in the form
+    `num + den = 2·(u·v)` for the brackets with the vertex `(0,0,1)` (any finite vertex gives a common factor) -/
+theorem T10_is_perpendicular (u0 u1 v0 v1 : F) :
+    let L : Nat → Gauss F := cplx fun k => [u0, u1, 0].getD k 0
+    let M : Nat → Gauss F := cplx fun k => [v0, v1, 0].getD k 0
+    let o : Nat → Gauss F := cplx fun k => [0, 0, 1].getD k 0
+    let num := Gen.cr_num (Gen.cr_ac_from o L M circI circJ) (Gen.cr_bd_from o L M circI circJ) (Gen.cr_ad_from o L M circI circJ) (Gen.cr_bc_from o L M circI circJ)
+    let den := Gen.cr_den (Gen.cr_ac_from o L M circI circJ) (Gen.cr_bd_from o L M circI circJ) (Gen.cr_ad_from o L M circI circJ) (Gen.cr_bc_from o L M circI circJ)
+    (num + den).re = 2 * (u0 * v0 + u1 * v1) ∧ (num + den).im = 0 := by
+  simp [Gen.cr_num, Gen.cr_den, Gen.cr_ac_from, Gen.cr_bd_from, Gen.cr_ad_from, Gen.cr_bc_from, det3, cplx, circI, circJ]
+    <;> (try constructor) <;> (try ring)
+
 end Geo
